@@ -160,6 +160,9 @@ class CQMap(Tensor):
     def dagger(self):
         return CQMap(self.cod, self.dom, utensor=self.utensor.dagger())
 
+    def map(self, func):
+        return CQMap(self.dom, self.cod, utensor=self.utensor.map(func))
+
     def tensor(self, *others):
         if len(others) != 1:
             return monoidal.Diagram.tensor(self, *others)
